@@ -24,3 +24,22 @@ CLAIMED["C08"] = dict(
     not_decided="equality of any statistic with the aligned-bucket reference model for arbitrary histories (the core of the property): no static argument in reach bounds window contents.")
 for _p in ["C19","C12","C09","C08"]:
     NA.pop(_p, None)
+
+CLAIMED["C01"] = dict(
+    technique="static analysis: SSA dominance / path rules over api.entry, SentinelEntry.Exit and SlotChain, sync.Pool ownership analysis, effect signature of stat.Slot, atomic-only and who-may-call on the gauge",
+    decided="a blocked outcome is exited exactly once inside api.entry and a passed entry is returned un-exited; all effects of Exit run inside the entry's sync.Once (idempotent, late Exit touches no context); pooled storage never escapes into an object outliving the Put; nothing uses the context after it is recycled; OnCompleted runs only under a pass marker that a fresh context lacks and that is set only right before the pass callbacks (panic edges of slot calls modelled); blocked entries get no completion; stat.Slot's pass / block / completion effects are exactly Inc+Add(Pass), Add(Block), Add(Rt)+Add(Complete)+Dec(+Add(Error) iff err) once on ctx.StatNode and, iff inbound, on the inbound node with the entry's batch count; only stat.Slot moves the gauge, by +1/-1, atomically.",
+    not_decided="conservation as a numeric invariant over histories; attribution of response time; behaviour when user statistic slots panic; ordering of TraceError/SetPair relative to Exit in user code. Known finding (not repaired, pinned test forbids): a request passed after a slot panic is not counted as pass.")
+CLAIMED["C02"] = dict(
+    technique="static analysis: module-bounded call-graph reachability (CHA, VTA in thorough), SSA value-identity between read and write windows, branch-fact check of the reject comparison",
+    decided="no rule check can reach a statistic writer (rejected requests consume no quota; check-then-record order); the window the reject checker reads is the window admitted tokens are written to, exactly once per admitted request, for the rule's own or the referenced resource; the reject checker compares pass-sum + batch with the threshold and blocks with the flow block type exactly on the exceeding branch; the first blocking controller's result is returned; window views are only built on tiling parameters.",
+    not_decided="exactness of the comparison (> vs >=), window alignment and arithmetic (C08), the (k-1)*batch excess bound under interleavings, fractional thresholds.")
+CLAIMED["C10"] = dict(
+    technique="static analysis: SSA branch-fact dominance on the wait value, add/rollback path pairing, atomic-only, sleep site check",
+    decided="every ShouldWait result carries 0 or a value bounded by a dominating v <= maxQueueingTimeNs test; the reserved interval is rolled back with the same amount on every blocked path and on no admitted path; lastPassedTime is only accessed atomically; threshold<=0 and batch>threshold block before shared state is touched; flow.Slot.Check sleeps exactly the wait of a ShouldWait result and never on a blocked one.",
+    not_decided="the spacing invariant between consecutive pass times (sequential or interleaved), 'idle time is never banked', rejection only when spacing would exceed the limit.")
+CLAIMED["C16"] = dict(
+    technique="static analysis: SSA ordering / reachability inside SlotChain.Entry, call-graph recover coverage, stable-sort shape check",
+    decided="slot lists are re-sorted with sort.SliceStable and a strict Order()<Order() less function; prepare, rule-check and statistic phases cannot run out of order, each over its own list; the first blocked result stops the rule-check loop and becomes the context's result; every statistic slot is told exactly one of passed/blocked selected by that result and completion only when the pass callbacks ran; every user callback in the Entry/Exit cone is under a deferred recover and a recovered panic yields a passed entry; the block error is taken before the internal Exit and pooled storage does not leak into it.",
+    not_decided="run-time order beyond 'stable sort with strict less'; immutability of a returned BlockError against code outside the Entry/Exit cone.")
+for _p in ["C01","C02","C10","C16"]:
+    NA.pop(_p, None)
